@@ -20,7 +20,7 @@
 (*             for the regex validators;                                   *)
 (*   lists     every list up to MaxList members over a small pool of       *)
 (*             members on both sides of the member bound; null for         *)
-(*             optional positions.                                         *)
+(*             optional positions; omission for positions with a default.  *)
 (* Only values of the declared type are emitted (Validators!InDomain).     *)
 (* The same run checks the reference semantics against itself:             *)
 (* NoDevIsReference, DevOnlyOnTrigger, NativeAgreement.                    *)
@@ -95,8 +95,10 @@ ListMembers(f) ==
 RECURSIVE Lists(_, _)
 Lists(M, n) == IF n = 0 THEN {<<>>} ELSE LET S == Lists(M, n - 1) IN S \cup {Append(s, m) : s \in S, m \in M}
 
+OmittedV == [NullV EXCEPT !.k = "omitted"]
 ValuesFor(f) ==
   (IF f.cont \in {"opt", "optlist"} THEN {NullV} ELSE {})
+  \cup (IF f.dflt.k # "none" THEN {OmittedV} ELSE {})
   \cup (IF f.cont \in {"list", "optlist"} THEN {ListV(l) : l \in Lists(ListMembers(f), MaxList)}
         ELSE IF f.T \in IntT THEN {Top(IntE(n)) : n \in IntPool(f)}
         ELSE IF f.T \in FloatT THEN {Top(x) : x \in FloatPool}
@@ -110,9 +112,10 @@ Emit  == ph = 1 => PrintT(<<"REPLAY", ToJson([field |-> Family[fi].name, v |-> v
 (* The specification checked against itself on every generated case.        *)
 F == Family[fi]
 \* with no deviation switched on, the implementation-shaped operator is the reference
-NoDevIsReference == ph = 1 => ReachesDev({}, F, v) = Reaches(F, v)
+W == Eff(F, v)
+NoDevIsReference == ph = 1 => ReachesDev({}, F, W) = Reaches(F, W)
 \* a deviation changes the outcome only on inputs in its trigger
-DevOnlyOnTrigger == ph = 1 => \A d \in Devs : (ReachesDev({d}, F, v) # Reaches(F, v)) => Trig(d, F, v)
+DevOnlyOnTrigger == ph = 1 => \A d \in Devs : (ReachesDev({d}, F, W) # Reaches(F, W)) => Trig(d, F, W)
 \* the reference arithmetic against TLC's native integers for small integer cases
 SmallInt(x) == x.k = "num" /\ x.scale = 0 /\ Len(x.d) <= 8
 NativeHolds(val, n) == LET b == ToInt(BigOfDec(val.b))
